@@ -520,3 +520,144 @@ Proof.
     rewrite <- (hw_rows_spec b r 1 ltac:(lia) Hw1). reflexivity.
   - destruct Hs as (-> & ->). reflexivity.
 Qed.
+
+(* ================================================================================================
+   8. the buffers: BTreeMap order, per-board concatenation, cut invariance
+   ================================================================================================ *)
+From Coq Require Import Sorted.
+
+Fixpoint bt_lookup (m : buffers) (b : N) : option (list N) :=
+  match m with
+  | [] => None
+  | (b', buf) :: m' => if b =? b' then Some buf else bt_lookup m' b
+  end.
+Definition keys (m : buffers) : list N := map fst m.
+Definition sorted (m : buffers) : Prop := StronglySorted N.lt (keys m).
+
+Lemma bt_extend_lb x : forall m b d, Forall (N.lt x) (keys m) -> x < b -> Forall (N.lt x) (keys (bt_extend m b d)).
+Proof.
+  induction m as [|[b' buf] m IH]; intros b d Hf Hx; cbn [bt_extend].
+  - repeat constructor. assumption.
+  - inversion Hf as [|? ? Hb' Hm]; subst. destruct (b <? b'); [|destruct (b =? b')]; cbn [keys map fst] in *.
+    + constructor; [assumption|]. constructor; assumption.
+    + constructor; assumption.
+    + constructor; [assumption|]. apply IH; assumption.
+Qed.
+
+Lemma bt_extend_sorted : forall m b d, sorted m -> sorted (bt_extend m b d).
+Proof.
+  unfold sorted. induction m as [|[b' buf] m IH]; intros b d Hs; cbn [bt_extend].
+  - repeat constructor.
+  - cbn [keys map fst] in Hs. apply StronglySorted_inv in Hs. destruct Hs as [Hs Hf].
+    destruct (N.ltb_spec b b') as [Hlt|Hge]; [|destruct (N.eqb_spec b b') as [He|Hne]]; cbn [keys map fst].
+    + constructor; [constructor; assumption|]. constructor; [assumption|].
+      eapply Forall_impl; [|exact Hf]. cbn. intros k Hk. lia.
+    + constructor; assumption.
+    + constructor; [apply IH; assumption|]. apply bt_extend_lb; [assumption|lia].
+Qed.
+
+Lemma bt_lookup_lb x : forall m b, Forall (N.lt x) (keys m) -> b <= x -> bt_lookup m b = None.
+Proof.
+  induction m as [|[b' buf] m IH]; intros b Hf Hb; [reflexivity|]. cbn [bt_lookup].
+  inversion Hf as [|? ? Hb' Hm]; subst. cbn [fst] in Hb'.
+  destruct (N.eqb_spec b b'); [lia|]. apply IH; assumption.
+Qed.
+
+Lemma bt_extend_lookup : forall m b d b', sorted m ->
+  bt_lookup (bt_extend m b d) b' =
+  if b' =? b then Some (match bt_lookup m b with Some buf => buf ++ d | None => d end) else bt_lookup m b'.
+Proof.
+  unfold sorted. induction m as [|[b0 buf] m IH]; intros b d b' Hs; cbn [bt_extend bt_lookup].
+  - reflexivity.
+  - cbn [keys map fst] in Hs. apply StronglySorted_inv in Hs. destruct Hs as [Hs Hf].
+    destruct (N.ltb_spec b b0) as [Hlt|Hge]; [|destruct (N.eqb_spec b b0) as [He|Hne]]; cbn [bt_lookup].
+    + destruct (N.eqb_spec b b0); [lia|]. rewrite (bt_lookup_lb b0 m b Hf) by lia. reflexivity.
+    + subst b0. destruct (N.eqb_spec b' b); reflexivity.
+    + rewrite (IH b d b' Hs). destruct (N.eqb_spec b' b0) as [E0|E0]; [|reflexivity].
+      destruct (N.eqb_spec b' b); [lia|reflexivity].
+Qed.
+
+Definition bufs_from (m : buffers) (pieces : list (N * list N)) : buffers :=
+  fold_left (fun m p => bt_extend m (fst p) (snd p)) pieces m.
+
+Lemma bufs_from_sorted : forall pieces m, sorted m -> sorted (bufs_from m pieces).
+Proof.
+  induction pieces as [|[b d] ps IH]; intros m Hs; [assumption|]. cbn [bufs_from fold_left fst snd].
+  apply IH. apply bt_extend_sorted. assumption.
+Qed.
+
+Lemma concat_of_cons b b0 d0 ps :
+  concat_of b ((b0, d0) :: ps) = (if b0 =? b then d0 else []) ++ concat_of b ps.
+Proof. unfold concat_of, pieces_of. cbn [filter fst]. destruct (b0 =? b); reflexivity. Qed.
+Lemma present_cons b b0 (d0 : list N) ps : present b ((b0, d0) :: ps) = (b0 =? b) || present b ps.
+Proof. reflexivity. Qed.
+
+Lemma bufs_from_lookup : forall pieces m b, sorted m ->
+  bt_lookup (bufs_from m pieces) b =
+  match bt_lookup m b with
+  | Some buf => Some (buf ++ concat_of b pieces)
+  | None => if present b pieces then Some (concat_of b pieces) else None
+  end.
+Proof.
+  induction pieces as [|[b0 d0] ps IH]; intros m b Hs.
+  - cbn [bufs_from fold_left]. unfold concat_of, pieces_of. cbn.
+    destruct (bt_lookup m b); [rewrite app_nil_r|]; reflexivity.
+  - cbn [bufs_from fold_left fst snd]. fold (bufs_from (bt_extend m b0 d0) ps).
+    rewrite (IH _ b (bt_extend_sorted m b0 d0 Hs)), (bt_extend_lookup m b0 d0 b Hs).
+    rewrite concat_of_cons, present_cons, (N.eqb_sym b0 b).
+    destruct (N.eqb_spec b b0) as [->|Hne]; cbn [orb].
+    + destruct (bt_lookup m b0); [rewrite app_assoc|]; reflexivity.
+    + destruct (bt_lookup m b); reflexivity.
+Qed.
+
+(* the buffers the program builds: ascending board order; a board is present iff it has at least one bank, and its
+   buffer is the concatenation of its banks in bank order *)
+Theorem cb_buffers_spec pieces :
+  sorted (cb_buffers pieces) /\
+  forall b, bt_lookup (cb_buffers pieces) b = if present b pieces then Some (concat_of b pieces) else None.
+Proof.
+  split.
+  - apply (bufs_from_sorted pieces []). constructor.
+  - intros b. apply (bufs_from_lookup pieces [] b). constructor.
+Qed.
+
+Lemma sorted_ext : forall m1 m2, sorted m1 -> sorted m2 ->
+  (forall b, bt_lookup m1 b = bt_lookup m2 b) -> m1 = m2.
+Proof.
+  unfold sorted. induction m1 as [|[b1 buf1] m1 IH]; intros [|[b2 buf2] m2] Hs1 Hs2 He.
+  - reflexivity.
+  - specialize (He b2). cbn [bt_lookup] in He. rewrite N.eqb_refl in He. discriminate.
+  - specialize (He b1). cbn [bt_lookup] in He. rewrite N.eqb_refl in He. discriminate.
+  - cbn [keys map fst] in Hs1, Hs2. apply StronglySorted_inv in Hs1, Hs2.
+    destruct Hs1 as [Hs1 Hf1]. destruct Hs2 as [Hs2 Hf2].
+    assert (b1 = b2) as ->.
+    { destruct (N.lt_trichotomy b1 b2) as [Hlt|[Heq|Hgt]]; [|assumption|]; exfalso.
+      - specialize (He b1). cbn [bt_lookup] in He. rewrite N.eqb_refl in He.
+        destruct (N.eqb_spec b1 b2); [lia|]. rewrite (bt_lookup_lb b2 m2 b1 Hf2) in He by lia. discriminate.
+      - specialize (He b2). cbn [bt_lookup] in He. rewrite N.eqb_refl in He.
+        destruct (N.eqb_spec b2 b1); [lia|]. rewrite (bt_lookup_lb b1 m1 b2 Hf1) in He by lia. discriminate. }
+    pose proof (He b2) as Hb. cbn [bt_lookup] in Hb. rewrite N.eqb_refl in Hb. injection Hb as ->.
+    f_equal. apply IH; try assumption. intros b. destruct (N.eqb_spec b b2) as [->|Hne].
+    + rewrite (bt_lookup_lb b2 m1 b2 Hf1), (bt_lookup_lb b2 m2 b2 Hf2) by lia. reflexivity.
+    + specialize (He b). cbn [bt_lookup] in He. destruct (N.eqb_spec b b2); [contradiction|assumption].
+Qed.
+
+(* cut invariance: the buffers, hence everything the program does, depend only on which boards have a bank and on
+   the concatenation of each board's banks *)
+Theorem cb_buffers_cut_invariant p1 p2 :
+  (forall b, present b p1 = present b p2) -> (forall b, concat_of b p1 = concat_of b p2) ->
+  cb_buffers p1 = cb_buffers p2.
+Proof.
+  intros Hp Hc. destruct (cb_buffers_spec p1) as [S1 L1]. destruct (cb_buffers_spec p2) as [S2 L2].
+  apply sorted_ext; try assumption. intros b. rewrite L1, L2, Hp, Hc. reflexivity.
+Qed.
+
+Theorem cb_program_cut_invariant p1 p2 :
+  (forall b, present b p1 = present b p2) -> (forall b, concat_of b p1 = concat_of b p2) ->
+  cb_program p1 = cb_program p2.
+Proof. intros Hp Hc. unfold cb_program. rewrite (cb_buffers_cut_invariant p1 p2 Hp Hc). reflexivity. Qed.
+
+(* feeding a board's banks one at a time with the resume protocol of C07 gives the same entries as the single parse
+   of the concatenation the program performs *)
+Theorem cb_feed_is_concat b pieces : cb_feed [] (pieces_of b pieces) = cb_fifo (concat_of b pieces).
+Proof. apply (cb_split_many_lemma (pieces_of b pieces) []). reflexivity. Qed.
